@@ -100,7 +100,7 @@ package file
 //@   requires handlerWf(h)
 //@   requires !h.closed && h.openType == ForUpdate ==> h.tempFile != nil && fs[h.path] != 0 && fs[tempPathOf(h.path)] != 0
 //@   assert after call go-file/v2.Close: [crash-point-old-or-new] old(h.openType) == ForUpdate && !old(h.closed) ==> fs[h.path] == old(fs[h.path]) || fs[h.path] == old(fs[tempPathOf(h.path)])
-//@   assert after call os.Remove: [crash-point-old-or-new] old(h.openType) == ForUpdate && !old(h.closed) ==> fs[h.path] == old(fs[h.path]) || fs[h.path] == old(fs[tempPathOf(h.path)])
+//@   assert after call os.Remove#*: [crash-point-old-or-new] old(h.openType) == ForUpdate && !old(h.closed) ==> fs[h.path] == old(fs[h.path]) || fs[h.path] == old(fs[tempPathOf(h.path)])
 //@   assert after call os.Rename: [crash-point-old-or-new] old(h.openType) == ForUpdate && !old(h.closed) ==> fs[h.path] == old(fs[h.path]) || fs[h.path] == old(fs[tempPathOf(h.path)])
 //@   assert after call (*file.ControlFile).Close: [crash-point-old-or-new] old(h.openType) == ForUpdate && !old(h.closed) ==> fs[h.path] == old(fs[h.path]) || fs[h.path] == old(fs[tempPathOf(h.path)])
 //@   ensures [new-contents-published] result == nil && !old(h.closed) && h.openType == ForUpdate ==> fs[h.path] == old(fs[tempPathOf(h.path)]) && fs[tempPathOf(h.path)] == 0
